@@ -345,6 +345,7 @@ type writer struct {
 	rtp    func(*rtp.Packet) error
 	rtcp   func(rtcp.Packet) error
 	ids    *int // next packet id of the session (RTP sequence numbers keep increasing across batches)
+	gap    time.Duration // pause after every write (a reading client's write queue has 8 slots only)
 }
 
 type planned struct {
@@ -375,7 +376,7 @@ func (h *harness) batch(w *writer) {
 	if !h.ctx.Thorough {
 		lo = w.max - 30
 	}
-	for total := lo; total <= hi; total++ {
+	for total := lo; total <= hi && w.rtp != nil; total++ {
 		s, ok := shapeFor(r, total)
 		if !ok {
 			continue
@@ -385,6 +386,9 @@ func (h *harness) batch(w *writer) {
 	}
 	// a few small and mid-size packets
 	for _, total := range []int{12, 13, 100, w.max / 2} {
+		if w.rtp == nil {
+			break // a writer that can only send RTCP (a client that is reading)
+		}
 		if s, ok := shapeFor(r, total); ok {
 			plan = append(plan, planned{id: id, rs: s})
 			id++
@@ -398,7 +402,7 @@ func (h *harness) batch(w *writer) {
 		plan = append(plan, planned{id: id, isRTC: true, cs: s})
 		id++
 	}
-	for _, total := range []int{8, 32, 8 + 24*31} {
+	for _, total := range []int{8, 32, 8 + 24*31, 8 + 24*31 + 4, 8 + 24*31 + 20, 800, 1000} {
 		if total <= w.max+20 {
 			if s, ok := rtcpFor(r, total, false); ok {
 				plan = append(plan, planned{id: id, isRTC: true, cs: s})
@@ -431,14 +435,20 @@ func (h *harness) batch(w *writer) {
 				p.err = w.rtp(buildRTP(p.rs, p.id))
 			}
 		}()
+		if w.gap > 0 {
+			time.Sleep(w.gap)
+		}
 	}
 	if w.max < 100 {
 		time.Sleep(60 * time.Millisecond) // let the automatic sender report (sent after the first RTP packet) be attempted
 	}
 	// markers: everything queued before them has reached the tap once they are seen
-	mErr1 := w.rtp(buildRTP(rtpShape{payload: 4}, markerID))
+	var mErr1 error
+	if w.rtp != nil {
+		mErr1 = w.rtp(buildRTP(rtpShape{payload: 4}, markerID))
+	}
 	mErr2 := w.rtcp(buildRTCP(rtcpShape{}, markerID))
-	if mErr1 != nil || mErr2 != nil || !w.t.waitMarkers(markerID, true, true, 5*time.Second) {
+	if mErr1 != nil || mErr2 != nil || !w.t.waitMarkers(markerID, w.rtp != nil, true, 5*time.Second) {
 		h.ctx.Failf(-1, "marker-not-seen", w.name, "%s: the marker packets did not reach the wire (errs %v %v)", w.name, mErr1, mErr2)
 		return
 	}
@@ -993,6 +1003,104 @@ func (h *harness) clientRecord(max int, tcp bool, secure bool, mki bool) {
 		rtcp: func(p rtcp.Packet) error { return c.WritePacketRTCP(medi, p) }})
 }
 
+// clientPlay: real client (tapped) READING from a real server stream: in that state the only thing a client writes is
+// RTCP (its own receiver reports and whatever the application hands to Client.WritePacketRTCP), through the same
+// size check and, over TCP, the same interleaved-frame buffer as a recording client.
+func (h *harness) clientPlay(max int, tcp bool, secure bool) {
+	name := fmt.Sprintf("client-play/tcp=%v/secure=%v/max=%d", tcp, secure, max)
+	t := newTap()
+	ph := &playHandler{}
+	var addr string
+	s := &gortsplib.Server{Handler: ph, RTSPAddress: "127.0.0.1:0"}
+	s.Listen = func(network, address string) (net.Listener, error) {
+		l, err := net.Listen(network, address)
+		if err == nil {
+			addr = l.Addr().String()
+		}
+		return l, err
+	}
+	if secure {
+		cert := selfSigned()
+		s.TLSConfig = &tls.Config{Certificates: []tls.Certificate{cert}}
+	}
+	if !tcp {
+		p, ok := freeUDPPair()
+		if !ok {
+			h.ctx.Failf(-1, "env-no-udp-ports", name, "no free UDP port pair")
+			return
+		}
+		s.UDPRTPAddress = fmt.Sprintf("127.0.0.1:%d", p)
+		s.UDPRTCPAddress = fmt.Sprintf("127.0.0.1:%d", p+1)
+	}
+	if err := s.Start(); err != nil {
+		h.ctx.Failf(-1, "env-server-start", name, "server start: %v", err)
+		return
+	}
+	defer s.Close()
+	smedi := &description.Media{Type: description.MediaTypeVideo, Formats: []format.Format{newFormat()}}
+	st := &gortsplib.ServerStream{Server: s, Desc: &description.Session{Medias: []*description.Media{smedi}}}
+	if err := st.Initialize(); err != nil {
+		h.ctx.Failf(-1, "env-stream-init", name, "stream init: %v", err)
+		return
+	}
+	defer st.Close()
+	ph.stream = st
+	proto := gortsplib.ProtocolUDP
+	if tcp {
+		proto = gortsplib.ProtocolTCP
+	}
+	scheme := "rtsp"
+	if secure {
+		scheme = "rtsps"
+	}
+	u, _ := base.ParseURL(scheme + "://" + addr + "/stream")
+	c := &gortsplib.Client{
+		Scheme: scheme, Host: addr, Protocol: &proto, MaxPacketSize: max, WriteQueueSize: 512,
+		ReadTimeout: 5 * time.Second, WriteTimeout: 5 * time.Second,
+		OnDecodeError: func(error) {}, OnPacketsLost: func(uint64) {},
+		ListenPacket: tapListenPacket(t),
+		DialContext: func(ctx context.Context, network, address string) (net.Conn, error) {
+			nc, err := (&net.Dialer{}).DialContext(ctx, network, address)
+			if err != nil {
+				return nil, err
+			}
+			return &tapConn{Conn: nc, t: t}, nil
+		},
+		DialTLSContext: func(ctx context.Context, network, address string) (net.Conn, error) {
+			nc, err := (&net.Dialer{}).DialContext(ctx, network, address)
+			if err != nil {
+				return nil, err
+			}
+			tc := tls.Client(nc, &tls.Config{InsecureSkipVerify: true})
+			if err := tc.HandshakeContext(ctx); err != nil {
+				nc.Close()
+				return nil, err
+			}
+			return &tapConn{Conn: tc, t: t}, nil
+		},
+	}
+	if err := c.Start(); err != nil {
+		h.ctx.Failf(-1, "env-client-start", name, "client start: %v", err)
+		return
+	}
+	defer c.Close()
+	desc, _, err := c.Describe(u)
+	if err == nil {
+		err = c.SetupAll(desc.BaseURL, desc.Medias)
+	}
+	if err == nil {
+		_, err = c.Play(nil)
+	}
+	if err != nil {
+		h.ctx.Failf(-1, "env-client-play", name, "describe/setup/play: %v", err)
+		return
+	}
+	time.Sleep(20 * time.Millisecond)
+	medi := desc.Medias[0]
+	h.batch(&writer{entry: 0, name: "client-play", tcp: tcp, secure: secure, max: max, t: t, gap: 2 * time.Millisecond,
+		rtcp: func(p rtcp.Packet) error { return c.WritePacketRTCP(medi, p) }})
+}
+
 // ---------- Start() ----------
 
 func (h *harness) startCase(who int, max int, wq int) {
@@ -1143,6 +1251,8 @@ func main() {
 			h.servePlay(max, gortsplib.ProtocolTCP, secure)
 			h.clientRecord(max, false, secure, false)
 			h.clientRecord(max, true, secure, false)
+			h.clientPlay(max, true, secure)
+			h.clientPlay(max, false, secure)
 		}
 		if max != 1472 {
 			h.clientRecord(max, ctx.Rng.Bool(), true, true)
